@@ -239,3 +239,6 @@ pub mod c11 {
         M.count_diagonal_entries(shape)
     }
 }
+
+/// the four strategy checkpoints of the main loop (C04)
+pub use crate::solver::core::verif_hooks_checkpoints;
